@@ -157,7 +157,163 @@ def run(rep, ctx):
              "the generic evaluator uses x[resvar] without excluding resvar < 0: a functional constraint without result variable "
              "(the dummy UnaryEncodingConstraint) reads x[-1]")
 
+    # ---- E1: logical evaluators agree with the truth tables of their operators ---------------------
+    e1 = rep.rule("C07.E1", "TABLE", "evaluators of the logical operators (not, and, or, implication-else, if-then-else selector) agree with the operators' truth tables (threshold 0.5)", floor=5)
+    evs = {}
+    for f in funcs:
+        if f.qn == "mp::ComputeValue" and f.params:
+            m = _re.search(r"mp::([A-Za-z_0-9]+)ConstraintId", f.params[0].get("ct") or "")
+            if m:
+                evs.setdefault(m.group(1), f)
+
+    def fcv(n):
+        n = strip(n)
+        for _ in range(6):
+            if "cv" in n:
+                try:
+                    return float(n["cv"])
+                except ValueError:
+                    return None
+            if n.get("v") is not None and n["k"] in ("FloatingLiteral", "IntegerLiteral"):
+                return float(n["v"])
+            if len(kids(n)) == 1:
+                n = strip(kids(n)[0])
+            else:
+                return None
+        return None
+
+    def arg_index(f, e):
+        """k if e is x[con.GetArguments()[k]] (possibly through a local), else None"""
+        e = strip(e)
+        if e["k"] == "DeclRefExpr":
+            v = [x for x in f.walk() if x["k"] == "VarDecl" and x.get("declId") == e.get("declId") and kids(x)]
+            if len(v) == 1:
+                return arg_index(f, kids(v[0])[0])
+            return None
+        m = _re.fullmatch(r"x\[con\.GetArguments\(\)\[([0-9]+)\]\]", nt(render(e)))
+        return int(m.group(1)) if m else None
+
+    def btruth(f, e, val):
+        """truth value of a 0.5-threshold boolean expression for argument truth values val[k]"""
+        e = strip(e)
+        if e["k"] == "BinaryOperator" and e.get("op") in ("&&", "||"):
+            a, b = btruth(f, kids(e)[0], val), btruth(f, kids(e)[1], val)
+            return (a and b) if e["op"] == "&&" else (a or b)
+        if e["k"] == "UnaryOperator" and e.get("op") == "!":
+            return not btruth(f, kids(e)[0], val)
+        if e["k"] == "BinaryOperator" and e.get("op") in (">=", "<") and fcv(kids(e)[1]) == 0.5:
+            k = arg_index(f, kids(e)[0])
+            if k is None:
+                raise AnalysisBroken("C07.E1: unrecognised operand %s" % render(e))
+            return val[k] if e["op"] == ">=" else not val[k]
+        raise AnalysisBroken("C07.E1: unrecognised condition %s in %s" % (render(e), f.full[:80]))
+    import itertools as _it
+    for name in ("Not", "Implication", "IfThen", "And", "Or"):
+        if name not in evs:
+            raise AnalysisBroken("C07.E1: no evaluator for %sConstraint" % name)
+    f = evs["Not"]
+    r = [x for x in f.walk() if x["k"] == "ReturnStmt"]
+    bad = None
+    if len(r) == 1:
+        for a in (False, True):
+            if btruth(f, kids(r[0])[0], {0: a}) != (not a):
+                bad = "not(%s) evaluates to %s" % (a, not (not a))
+    e1.check(len(r) == 1 and bad is None, "not", short_loc(f.loc), "not: value = argument < 0.5", bad or "shape")
+    f = evs["Implication"]
+    r = [x for x in f.walk() if x["k"] == "ReturnStmt"]
+    bad = None
+    if len(r) == 1:
+        for a, b, c in _it.product((False, True), repeat=3):
+            got = btruth(f, kids(r[0])[0], {0: a, 1: b, 2: c})
+            want = (a and b) or ((not a) and c)
+            if got != want:
+                bad = "condition %s, then %s, else %s: the evaluator says %s, the operator is %s" % (a, b, c, got, want)
+    e1.check(len(r) == 1 and bad is None, "implication-else", short_loc(f.loc), "implication: (cond and then) or (not cond and else) for all 8 cases",
+             "implication evaluator disagrees with  cond ==> then else else_ : %s - a violated implication passes the solution check (or a satisfied one is reported)" % bad)
+    f = evs["IfThen"]
+    co = [x for x in f.walk() if x["k"] == "ConditionalOperator"]
+    bad = None
+    if len(co) == 1:
+        c, a, b = kids(co[0])
+        for t in (False, True):
+            sel = cv(a) if btruth(f, c, {0: t}) else cv(b)
+            if sel != (1 if t else 2):
+                bad = "condition %s selects argument %s" % (t, sel)
+        idx = f.parent.get(co[0]["i"])
+    e1.check(len(co) == 1 and bad is None, "ifthen-selector", short_loc(f.loc), "if-then-else: value of argument 1 when the condition holds, of argument 2 otherwise", bad or "shape")
+    for name, stop_truth, stop_val, end_val in (("And", False, 0, 1), ("Or", True, 1, 0)):
+        f = evs[name]
+        loops = [x for x in f.walk() if x["k"] == "CXXForRangeStmt"]
+        ifs = [x for x in f.walk() if x["k"] == "IfStmt"]
+        rets = [x for x in f.walk() if x["k"] == "ReturnStmt"]
+        ok = len(loops) == 1 and len(ifs) == 1 and len(rets) == 2
+        bad = "shape"
+        if ok:
+            c = strip(kids(ifs[0])[0])
+            okc = c["k"] == "BinaryOperator" and fcv(kids(c)[1]) == 0.5 and nt(render(kids(c)[0])) == "x[i]" and c.get("op") == ("<" if not stop_truth else ">=")
+            inner = [x for x in walk(ifs[0]) if x["k"] == "ReturnStmt"]
+            outer = [x for x in rets if x not in inner]
+            okv = len(inner) == 1 and len(outer) == 1 and fcv(kids(inner[0])[0]) == stop_val and fcv(kids(outer[0])[0]) == end_val
+            rng = "GetArguments()" in render(loops[0])
+            ok = okc and okv and rng
+            bad = "condition %s, early value %s, final value %s" % (render(c), cv(kids(inner[0])[0]) if inner else "?", cv(kids(outer[0])[0]) if outer else "?")
+        e1.check(ok, name.lower(), short_loc(f.loc), "%s: %s as soon as one argument is %s, else %s" % (name.lower(), stop_val, "false" if not stop_truth else "true", end_val), bad)
+
     # ---- G1 ---------------------------------------------------------------------------
+    # ---- E2: numeric evaluators name the right function of the right operands ----------------------
+    e2 = rep.rule("C07.E2", "TABLE", "evaluators of the one-argument functions, pow/exp_a/log_a, min/max and count apply the operator's own function to its own operands", floor=20)
+
+    def shape(f, e):
+        e = strip(e)
+        k = arg_index(f, e)
+        if k is not None:
+            return ("arg", k)
+        m = _re.fullmatch(r"con\.GetParameters\(\)\[([0-9]+)\]", nt(render(e)))
+        if m:
+            return ("par", int(m.group(1)))
+        if e["k"] == "DeclRefExpr":
+            v = [x for x in f.walk() if x["k"] == "VarDecl" and x.get("declId") == e.get("declId") and kids(x)]
+            if len(v) == 1:
+                return shape(f, kids(v[0])[0])
+        if e["k"] == "CallExpr":
+            return ("call", (e.get("callee") or "").split("::")[-1]) + tuple(shape(f, a) for a in call_args(e))
+        if e["k"] == "BinaryOperator":
+            return ("op", e.get("op"), shape(f, kids(e)[0]), shape(f, kids(e)[1]))
+        return ("?", nt(render(e))[:40])
+    A0, P0 = ("arg", 0), ("par", 0)
+    REF = {"Abs": ("call", "fabs", A0), "Exp": ("call", "exp", A0), "Log": ("call", "log", A0), "Sin": ("call", "sin", A0), "Cos": ("call", "cos", A0), "Tan": ("call", "tan", A0),
+           "Asin": ("call", "asin", A0), "Acos": ("call", "acos", A0), "Atan": ("call", "atan", A0), "Sinh": ("call", "sinh", A0), "Cosh": ("call", "cosh", A0), "Tanh": ("call", "tanh", A0),
+           "Asinh": ("call", "asinh", A0), "Acosh": ("call", "acosh", A0), "Atanh": ("call", "atanh", A0),
+           "Pow": ("call", "pow", A0, P0), "ExpA": ("call", "pow", P0, A0), "LogA": ("op", "/", ("call", "log", A0), ("call", "log", P0))}
+    for name, want in sorted(REF.items()):
+        f = evs.get(name)
+        if f is None:
+            raise AnalysisBroken("C07.E2: no evaluator for %sConstraint" % name)
+        r = [x for x in f.walk() if x["k"] == "ReturnStmt"]
+        got = shape(f, kids(r[0])[0]) if len(r) == 1 else None
+        e2.check(got == want, name.lower(), short_loc(f.loc), "%s: %s" % (name, want), "%s evaluates %s, the operator is %s: the recomputed value of every such expression is wrong, so violations are missed or invented" % (name, got, want))
+    for name, op, init_neg in (("Max", "<", True), ("Min", ">", False)):
+        f = evs.get(name)
+        if f is None:
+            raise AnalysisBroken("C07.E2: no evaluator for %sConstraint" % name)
+        ifs = [x for x in f.walk() if x["k"] == "IfStmt"]
+        v = [x for x in f.walk() if x["k"] == "VarDecl" and x.get("name") == "result"]
+        ok = len(ifs) == 1 and len(v) == 1
+        if ok:
+            c = strip(kids(ifs[0])[0])
+            ini = nt(render(kids(v[0])[0])).upper()
+            asg = [x for x in walk(ifs[0]) if x["k"] == "BinaryOperator" and x.get("op") == "="]
+            ok = c["k"] == "BinaryOperator" and ((c.get("op") == op and nt(render(kids(c)[0])) == "result" and nt(render(kids(c)[1])) == "x[i]") or
+                                                  (c.get("op") == {"<": ">", ">": "<"}[op] and nt(render(kids(c)[1])) == "result" and nt(render(kids(c)[0])) == "x[i]")) and \
+                ("INF" in ini) and (ini.startswith("-") == init_neg) and len(asg) == 1 and nt(render(asg[0])) == "result=x[i]"
+        e2.check(ok, name.lower(), short_loc(f.loc), "%s: running %s over the arguments starting from %sinfinity" % (name, name.lower(), "-" if init_neg else "+"))
+    f = evs.get("Count")
+    if f is None:
+        raise AnalysisBroken("C07.E2: no evaluator for CountConstraint")
+    ifs = [x for x in f.walk() if x["k"] == "IfStmt"]
+    okc = len(ifs) == 1 and nt(render(kids(ifs[0])[0])) in ("x[v]>=0.5",) and any(x["k"] == "UnaryOperator" and x.get("op") == "++" and nt(render(kids(x)[0])) == "result" for x in walk(ifs[0]))
+    e2.check(okc, "count", short_loc(f.loc), "count: number of arguments >= 0.5")
+
     g1 = rep.rule("C07.G1", "TABLE", "context cases and the tolerance test", floor=8)
     ctx_vals = F.enum_values("mp::Context::CtxVal") or {}
     if not {"CTX_MIX", "CTX_POS", "CTX_NEG"} <= set(ctx_vals):
